@@ -139,7 +139,13 @@ pub fn merge(property: &str, tier: &str, parts: Vec<(&str, CheckOutcome)>) -> Ch
     let mut wall = 0.0;
     let mut mach = None;
     let mut level = "model_checking";
+    let mut rules: Vec<String> = vec![];
+    let mut distinct = 0u64;
     for (name, o) in parts {
+        if let Some(r) = o.coverage["rule"].as_str() {
+            rules.push(format!("[{}] {}", name, r));
+        }
+        distinct += o.coverage["distinct_nontrivial"].as_u64().or(o.coverage["states"].as_u64()).unwrap_or(0);
         states += o.coverage["states"].as_u64().unwrap_or(0);
         transitions += o.coverage["transitions"].as_u64().unwrap_or(0);
         traces += o.coverage["traces_validated_against_impl"].as_u64().unwrap_or(0);
@@ -177,6 +183,8 @@ pub fn merge(property: &str, tier: &str, parts: Vec<(&str, CheckOutcome)>) -> Ch
             "transitions": transitions,
             "traces_validated_against_impl": traces,
             "evaluations": traces,
+            "distinct_nontrivial": distinct,
+            "rule": rules.join("  ||  "),
             "samples": samples,
             "exhaustive": exhaustive,
             "parts": Value::Object(by_engine),
